@@ -142,6 +142,7 @@ type node struct {
 	h0       int
 	qmu      sync.Mutex
 	queuedH  map[int]bool
+	relayed  []relayNote // hashes of payloads handed to the service / broadcast by it (the settle loop waits a moment for their inv)
 	stopped  atomic.Bool
 	gateMu   sync.Mutex
 	closed   bool
@@ -181,6 +182,41 @@ func (q qTap) Put(b *block.Block) error {
 	q.n.qmu.Unlock()
 	q.n.emit(map[string]any{"event": "queued", "i": int(b.Index), "b": sid(b.Hash()), "ntx": len(b.Transactions)})
 	return q.n.srv.GetBlockQueue().Put(b)
+}
+
+type relayNote struct {
+	h    util.Uint256
+	mark int64 // log position when the node took / made the payload
+}
+
+func (n *node) noteRelay(h util.Uint256) {
+	n.qmu.Lock()
+	n.relayed = append(n.relayed, relayNote{h, n.log.n.Load()})
+	n.qmu.Unlock()
+}
+
+// pendingRelay: some connected peer has not yet been told about a payload the node took / made (checked from `from` on).
+func (n *node) pendingRelay(peers []*peer) bool {
+	n.qmu.Lock()
+	hs := append([]relayNote(nil), n.relayed...)
+	n.qmu.Unlock()
+	if len(hs) > 64 {
+		hs = hs[len(hs)-64:]
+	}
+	for _, p := range peers {
+		if p == nil || p.to != n || !p.alive() {
+			continue
+		}
+		p.mu.Lock()
+		for _, h := range hs {
+			if p.invExt[h.h] == 0 && p.since > 0 && p.since < h.mark {
+				p.mu.Unlock()
+				return true
+			}
+		}
+		p.mu.Unlock()
+	}
+	return false
 }
 
 func (n *node) queuedAt(h int) bool {
@@ -260,6 +296,7 @@ func newNode(w *world, o nodeOpts, log *evlog, clk *clock, dir string) (n *node,
 				if n.onOwn != nil {
 					n.onOwn(n, p)
 				}
+				n.noteRelay(p.Hash())
 				n.emit(ev)
 				n.srv.BroadcastExtensible(p)
 			},
@@ -290,6 +327,7 @@ func newNode(w *world, o nodeOpts, log *evlog, clk *clock, dir string) (n *node,
 		bySvc.Store(n.svc, n)
 		n.srv.AddConsensusService(svcTap{n}, func(e *payload.Extensible) error {
 			n.emit(map[string]any{"event": "deliver", "x": n.copyID(e), "hx": sid(e.Hash())})
+			n.noteRelay(e.Hash())
 			return n.svc.OnPayload(e)
 		}, func(tx *transaction.Transaction) {
 			n.emit(map[string]any{"event": "ontx", "t": sid(tx.Hash())})
